@@ -6,7 +6,6 @@ import (
 	"github.com/trajectoryjp/spatial_id_go/v4/common/consts"
 	"github.com/trajectoryjp/spatial_id_go/v4/common/errors"
 	"github.com/trajectoryjp/spatial_id_go/v4/integrate"
-	"github.com/trajectoryjp/spatial_id_go/v4/transform"
 	"strconv"
 	"strings"
 )
@@ -71,7 +70,7 @@ func CheckSpatialIdsArrayOverlap(spatialIds1 []string, spatialIds2 []string) (bo
 		}
 		// 高度インデックスをオフセット変換のみ実行して自然数にする
 		// minAltitudeKey == maxAltitudeKeyになるため結果は片方のみ利用する
-		convertedFIndex, _, errAltConversion := transform.ConvertZToMinMaxAltitudekey(int64(f1), int64(zoom1), int64(zoom1), consts.ZOriginValue, consts.ZBaseOffsetForNegativeFIndex)
+		convertedFIndex, errAltConversion := offsetFIndex(int64(f1), int64(zoom1))
 		if convertedFIndex < 0 {
 			return false, errors.NewSpatialIdError(errors.InputValueErrorCode, fmt.Sprintf("input f-index %v is out of altitude range @spatialId1[%v] = %v", f1, indexSpatialId1, spatialId1))
 		}
@@ -90,7 +89,7 @@ func CheckSpatialIdsArrayOverlap(spatialIds1 []string, spatialIds2 []string) (bo
 		// 取り出した要素の比較
 		// 高度インデックスをオフセット変換のみ実行して自然数にする
 		// minAltitudeKey == maxAltitudeKeyになるため結果は片方のみ利用する
-		convertedFIndex2, _, errAltConversion := transform.ConvertZToMinMaxAltitudekey(int64(f2), int64(zoom2), int64(zoom2), consts.ZOriginValue, consts.ZBaseOffsetForNegativeFIndex)
+		convertedFIndex2, errAltConversion := offsetFIndex(int64(f2), int64(zoom2))
 		if convertedFIndex2 < 0 {
 			return false, errors.NewSpatialIdError(errors.InputValueErrorCode, fmt.Sprintf("input f-index %v is out of altitude range @spatialId2[%v] = %v", f2, indexSpatialId2, spatialId2))
 		}
@@ -105,6 +104,29 @@ func CheckSpatialIdsArrayOverlap(spatialIds1 []string, spatialIds2 []string) (bo
 	}
 
 	return false, nil
+}
+
+// offsetFIndex 空間IDのfインデックスを同一ズームレベルの非負インデックスに変換する
+//
+// 高度範囲(-2^24m以上 2^24m未満)の下端が0になるよう、ズームレベルzoomでの2^24m分のインデックス数(2^(zoom-1))を加算する。
+// ズームレベルによらずインデックスの下位ビットは保持される。
+//
+// 変換後のインデックスがズームレベルzoomに存在しない(0未満または2^zoom以上)場合はエラーとなる。
+func offsetFIndex(f int64, zoom int64) (int64, error) {
+	if zoom < 0 || zoom > 35 {
+		return 0, errors.NewSpatialIdError(errors.InputValueErrorCode, "input index does not exist")
+	}
+	offset := int64(consts.ZBaseOffsetForNegativeFIndex)
+	if zoom >= consts.ZOriginValue {
+		offset <<= zoom - consts.ZOriginValue
+	} else {
+		offset >>= consts.ZOriginValue - zoom
+	}
+	index := f + offset
+	if index < 0 || index > (int64(1)<<zoom)-1 {
+		return 0, errors.NewSpatialIdError(errors.InputValueErrorCode, "output index does not exist with given outputZoom, zBaseExponent, and zBaseOffset")
+	}
+	return index, nil
 }
 
 // getSpatialIdAttrs 空間IDフォーマットチェック関数
